@@ -1,2 +1,211 @@
-(* C13 -- theorems land here *)
-Require Import XV.Differ XV.Spec.
+(* C13 -- "Ignored attributes are invisible to the diff: with a list of ignored
+   attributes, two documents that differ only in those attributes produce an
+   empty edit script, no action of any script ever names an ignored attribute,
+   and applying the script to the left document yields the right document up to
+   the ignored attributes."
+
+   Models: XV.Pipeline.diff_model (Differ.match + Differ.diff, similarity
+   oracle), the option record o carries ignored_attrs (oignored o);
+   XV.Spec.run_spec: the documented meaning of the actions.
+   node_attribs_d ign l = filter (fun kv => negb (smem (fst kv) ign)) l
+   is Differ.node_attribs: the attribute list l without the names in ign.
+
+   - C13_empty.  Hypotheses: the oracle laws of C03 (ratio(s,s) == 1.0, ...; the
+     last two only when fast_match is set), L well-formed, every binding of the
+     namespace map found under its own prefix, and R EQUAL TO L UP TO THE IGNORED
+     ATTRIBUTES: same ids (both trees are numbered in pre-order), same child
+     lists, tags, texts, tails, and for every node the attribute lists WITHOUT
+     the ignored names are permutations of each other.  (The ignored attributes
+     themselves may differ arbitrarily: other values, present on one side only,
+     even repeated.)  Conclusion: the script is empty and the working tree is L.
+   - C13_no_mention: for EVERY pair of forests (no well-formedness needed), every
+     option record and every result of diff_model, no action of the script names
+     an ignored attribute: the name of UpdateAttrib / InsertAttrib / DeleteAttrib
+     and both names of RenameAttrib are outside oignored o.
+     C13_no_mention_every_matching: the same for the differ on ANY matching.
+   - C13_roundtrip: under the hypotheses of C01, replaying the script on L
+     succeeds and yields a tree W which is the right document once the ignored
+     attributes are filtered out of both (tree_equivb: same tags, remaining
+     attribute sets and values, texts, tails, comments, child order).
+   - C13_right_invisible: the attributes of the right document influence the
+     result only through their non-ignored part: replacing the attribute list of
+     every right node n by any list g n with the same non-ignored part
+     (relab R g) changes neither the script nor the final tree.  No hypothesis.
+   Proofs: XV.PipelineProofs (attr_run_keys_ok, gen_script_attr_acts_ok,
+   diff_model_relab, ignored_only_empty_script), XV.EqualDocs, XV.DifferSound. *)
+From Coq Require Import List NArith ZArith Bool Arith Lia Sorting.Permutation.
+Import ListNotations.
+Require Import XV.Str XV.Forest XV.Matcher XV.Differ XV.Spec XV.WF XV.EqualDocs
+               XV.Pipeline XV.PipelineProofs.
+
+Theorem C13_empty :
+  forall (sim : Type) (sim_ltb sim_leb : sim -> sim -> bool) (sim_is_one : sim -> bool)
+         (zero one : sim) (leaf_sim : str -> str -> sim) (combine : sim -> nat -> nat -> sim)
+         (o : mopts sim) (L R : forest) (root : id) (lns : nsmap),
+  (* oracle laws, as in C03 *)
+  (forall s, sim_is_one (leaf_sim s s) = true) ->
+  (forall m n, sim_is_one m = true -> 0 < n -> sim_is_one (combine m n n) = true) ->
+  sim_is_one one = true ->
+  (forall x, sim_is_one x = true -> sim_ltb zero x = true) ->
+  (forall x, sim_is_one x = true -> sim_leb (oF sim o) x = true) ->
+  (ofast sim o = true -> sim_leb (oF sim o) zero = false) ->
+  (ofast sim o = true ->
+   forall s t n x n', 0 < n -> sim_leb (oF sim o) (combine (leaf_sim s t) 0 n) = true ->
+                      sim_is_one x = true -> 0 < n' ->
+                      sim_leb (oF sim o) (combine x 0 n') = true) ->
+  wf_forest L root ->
+  (* R differs from L only in ignored attributes (and attribute order) *)
+  (fnext L = fnext R /\
+   (forall n, n < fnext L -> fkids L n = fkids R n) /\
+   (forall n, n < fnext L ->
+      ltag (flab L n) = ltag (flab R n) /\ ltext (flab L n) = ltext (flab R n) /\
+      ltail (flab L n) = ltail (flab R n) /\
+      Permutation (filter (fun kv => negb (smem (fst kv) (oignored sim o))) (lattrs (flab L n)))
+                  (filter (fun kv => negb (smem (fst kv) (oignored sim o))) (lattrs (flab R n))))) ->
+  (forall k v, In (k, v) lns -> ns_get lns k = Some v) ->
+  diff_model sim sim_ltb sim_leb sim_is_one zero one leaf_sim combine o L R root root lns lns
+  = Some ([], L).
+Proof. exact ignored_only_empty_script. Qed.
+Print Assumptions C13_empty.
+
+Theorem C13_no_mention :
+  forall (sim : Type) (sim_ltb sim_leb : sim -> sim -> bool) (sim_is_one : sim -> bool)
+         (zero one : sim) (leaf_sim : str -> str -> sim) (combine : sim -> nat -> nat -> sim)
+         (o : mopts sim) (L R : forest) (rootL rootR : id) (lns rns : nsmap)
+         (script : list iact) (W : forest),
+  diff_model sim sim_ltb sim_leb sim_is_one zero one leaf_sim combine o L R rootL rootR lns rns
+    = Some (script, W) ->
+  forall a, In a script ->
+  match a with
+  | IUpdAttr _ k _ | IInsAttr _ k _ | IDelAttr _ k => ~ In k (oignored sim o)
+  | IRenAttr _ k k' => ~ In k (oignored sim o) /\ ~ In k' (oignored sim o)
+  | _ => True
+  end.
+Proof.
+  intros sim sim_ltb sim_leb sim_is_one zero one leaf_sim combine o L R rootL rootR lns rns script W Hd.
+  apply Forall_forall.
+  exact (diff_model_attr_acts_ok sim sim_ltb sim_leb sim_is_one zero one leaf_sim combine
+           o L R rootL rootR lns rns script W Hd).
+Qed.
+Print Assumptions C13_no_mention.
+
+Theorem C13_no_mention_every_matching :
+  forall (ignored : list str) (L R : forest) (rootL rootR : id) (m : list (id * id)) (a : iact),
+  In a (out (gen_script ignored R rootR L rootL m)) ->
+  match a with
+  | IUpdAttr _ k _ | IInsAttr _ k _ | IDelAttr _ k => ~ In k ignored
+  | IRenAttr _ k k' => ~ In k ignored /\ ~ In k' ignored
+  | _ => True
+  end.
+Proof.
+  intros ignored L R rootL rootR m. apply Forall_forall.
+  exact (gen_script_attr_acts_ok ignored R rootR L rootL m).
+Qed.
+Print Assumptions C13_no_mention_every_matching.
+
+Theorem C13_roundtrip :
+  forall (sim : Type) (sim_ltb sim_leb : sim -> sim -> bool) (sim_is_one : sim -> bool)
+         (zero one : sim) (leaf_sim : str -> str -> sim) (combine : sim -> nat -> nat -> sim)
+         (o : mopts sim) (L R : forest) (rootL rootR : id) (lns rns : nsmap),
+  sim_leb (oF sim o) zero = false -> sim_is_one zero = false ->
+  wf_forest L rootL -> wf_forest R rootR ->
+  ns_prologue lns rns <> None ->
+  exists script W,
+    diff_model sim sim_ltb sim_leb sim_is_one zero one leaf_sim combine o L R rootL rootR lns rns
+      = Some (script, W)
+    /\ run_spec rootL L script = Some W
+    /\ let drop_ignored := filter (fun kv : str * str => negb (smem (fst kv) (oignored sim o))) in
+       tree_equivb (tree_map_attrs drop_ignored (to_tree (S (fnext W)) W rootL))
+                   (tree_map_attrs drop_ignored (to_tree (S (fnext R)) R rootR)) = true.
+Proof.
+  intros sim sim_ltb sim_leb sim_is_one zero one leaf_sim combine o L R rootL rootR lns rns HF H1.
+  apply diff_model_sound. split; assumption.
+Qed.
+Print Assumptions C13_roundtrip.
+
+Theorem C13_right_invisible :
+  forall (sim : Type) (sim_ltb sim_leb : sim -> sim -> bool) (sim_is_one : sim -> bool)
+         (zero one : sim) (leaf_sim : str -> str -> sim) (combine : sim -> nat -> nat -> sim)
+         (o : mopts sim) (L R : forest) (g : id -> list (str * str)) (rootL rootR : id) (lns rns : nsmap),
+  (forall n, filter (fun kv => negb (smem (fst kv) (oignored sim o))) (g n)
+             = filter (fun kv => negb (smem (fst kv) (oignored sim o))) (lattrs (flab R n))) ->
+  let R' := Forest (fkids R)
+                   (fun n => Lab (ltag (flab R n)) (g n) (ltext (flab R n)) (ltail (flab R n)))
+                   (fnext R) in
+  diff_model sim sim_ltb sim_leb sim_is_one zero one leaf_sim combine o L R' rootL rootR lns rns
+  = diff_model sim sim_ltb sim_leb sim_is_one zero one leaf_sim combine o L R rootL rootR lns rns.
+Proof. exact diff_model_relab. Qed.
+Print Assumptions C13_right_invisible.
+
+(* Non-vacuity, with the nat-valued oracle of C03
+   (EqualDocs.ex_leaf / ex_comb, percent).
+   (1) L = <r><a k="1" i="7" m="3">x</a><b i="1"/></r> against
+       R = <r><a m="3" k="1">x</a><b i="2" i2="0"/></r> with ignored = ["i"; "i2"]:
+       they differ only in ignored attributes (and attribute order); the
+       hypotheses of C13_empty hold and the script computes to [].
+   (2) the example of C01 (ignored = ["i"], i="7" against i="8", k="1" against
+       k="2"): the script updates k and never names i; replaying it gives R up to i. *)
+Example C13_example :
+  let ign := [[105%N]; [105%N; 50%N]] in
+  let L := mk_forest [(0, [1; 2])]
+            [(0, Lab (TElem [114%N]) [] None None);
+             (1, Lab (TElem [97%N]) [([107%N], [49%N]); ([105%N], [55%N]); ([109%N], [51%N])] (Some [120%N]) None);
+             (2, Lab (TElem [98%N]) [([105%N], [49%N])] None None)] 3 in
+  let R := mk_forest [(0, [1; 2])]
+            [(0, Lab (TElem [114%N]) [] None None);
+             (1, Lab (TElem [97%N]) [([109%N], [51%N]); ([107%N], [49%N])] (Some [120%N]) None);
+             (2, Lab (TElem [98%N]) [([105%N], [50%N]); ([105%N; 50%N], [48%N])] None None)] 3 in
+  let is_one := fun x => Nat.eqb x 100 in
+  let o := MOpts nat 50 [] false false ign in
+  (* (1) hypotheses of C13_empty *)
+  ((forall s, is_one (ex_leaf s s) = true) /\
+   (forall m n, is_one m = true -> 0 < n -> is_one (ex_comb m n n) = true) /\
+   is_one 100 = true /\
+   (forall x, is_one x = true -> Nat.ltb 0 x = true) /\
+   (forall x, is_one x = true -> Nat.leb (oF nat o) x = true) /\
+   (ofast nat o = true -> Nat.leb (oF nat o) 0 = false) /\
+   (ofast nat o = true ->
+    forall s t n x n', 0 < n -> Nat.leb (oF nat o) (ex_comb (ex_leaf s t) 0 n) = true ->
+                       is_one x = true -> 0 < n' -> Nat.leb (oF nat o) (ex_comb x 0 n') = true)) /\
+  wf_forest L 0 /\
+  (fnext L = fnext R /\
+   (forall n, n < fnext L -> fkids L n = fkids R n) /\
+   (forall n, n < fnext L ->
+      ltag (flab L n) = ltag (flab R n) /\ ltext (flab L n) = ltext (flab R n) /\
+      ltail (flab L n) = ltail (flab R n) /\
+      Permutation (filter (fun kv => negb (smem (fst kv) ign)) (lattrs (flab L n)))
+                  (filter (fun kv => negb (smem (fst kv) ign)) (lattrs (flab R n))))) /\
+  (forall k v, In (k, v) ex_lns -> ns_get ex_lns k = Some v) /\
+  (* its conclusion computes; and the documents do differ *)
+  option_map fst (diff_model nat Nat.ltb Nat.leb is_one 0 100 ex_leaf ex_comb o L R 0 0 ex_lns ex_lns) = Some [] /\
+  tree_equivb (doc_tree L 0) (doc_tree R 0) = false /\
+  (* (2) a non-empty script that does not name the ignored attribute *)
+  (let L2 := mk_forest [(0, [1; 2])]
+            [(0, Lab (TElem [114%N]) [] None None);
+             (1, Lab (TElem [97%N]) [([107%N], [49%N]); ([105%N], [55%N])] (Some [120%N]) None);
+             (2, Lab (TElem [98%N]) [] None None)] 3 in
+   let R2 := mk_forest [(0, [1; 2; 3])]
+            [(0, Lab (TElem [114%N]) [] None None);
+             (1, Lab (TElem [98%N]) [] None None);
+             (2, Lab (TElem [97%N]) [([107%N], [50%N]); ([105%N], [56%N])] (Some [121%N]) None);
+             (3, Lab TComment [] (Some [99%N]) (Some [116%N]))] 4 in
+   let leaf := fun a b : str => if str_eqb a b then 100 else
+               match a, b with x :: _, y :: _ => if N.eqb x y then 60 else 10 | _, _ => 10 end in
+   option_map fst (diff_model nat Nat.ltb Nat.leb is_one 0 100 leaf ex_comb
+                              (MOpts nat 50 [] false false [[105%N]]) L2 R2 0 0 [] [])
+   = Some [IMove 1 0 1; IUpdAttr 1 [107%N] [50%N]; IText 1 (Some [121%N]);
+           IInsertComment 0 2 (Some [99%N]) 3; ITail 3 (Some [116%N])]).
+Proof.
+  cbv zeta.
+  split; [exact (ex_laws 50 false (or_introl eq_refl))|].
+  split; [apply wf_forestb_sound; vm_compute; reflexivity|].
+  split.
+  { split; [reflexivity|]. split.
+    - intros n Hn. do 3 (destruct n as [|n]; [reflexivity|]). cbn in Hn. lia.
+    - intros n Hn. destruct n as [|n]; [repeat split; vm_compute; constructor|].
+      destruct n as [|n]; [repeat split; vm_compute; apply perm_swap|].
+      destruct n as [|n]; [repeat split; vm_compute; constructor|]. cbn in Hn. lia. }
+  split; [exact ex_ns|].
+  split; [vm_compute; reflexivity|]. split; vm_compute; reflexivity.
+Qed.
+Print Assumptions C13_example.
